@@ -331,6 +331,52 @@ def shard_main(ctx):
         ha, hb = table.see(astx.parse_expr(ta), "non-ascii"), table.see(astx.parse_expr(tb), "non-ascii")
         if ha is not None and ha == hb:
             ctx.violation("insensitive-to:non-ascii-character", f"{ta!r} and {tb!r} hash equal", {"text": ta, "mutant": tb, "tag": "non-ascii-character"})
+    # a wide character vs the latin-1 reading of its UTF-8 bytes (byte-level encodings must not collide)
+    for cp in [0x161, 0x142, 0x3b1, 0x444, 0x4e2d, 0x1F600, 0x100, 0x7ff, 0x20ac]:
+        wide = chr(cp)
+        moji = wide.encode("utf-8").decode("latin-1")
+        ta, tb = f"Select(EventDataset(), lambda e: e.f({wide!r}))", f"Select(EventDataset(), lambda e: e.f({moji!r}))"
+        ctx.case(f"mojibake:{cp:x}", True)
+        ctx.count("mutant:wide-char-vs-latin1-mojibake")
+        ha, hb = table.see(astx.parse_expr(ta), "wide-char"), table.see(astx.parse_expr(tb), "mojibake")
+        if ha is not None and ha == hb:
+            ctx.violation("insensitive-to:wide-char-vs-mojibake", f"{ta!r} and {tb!r} hash equal", {"text": ta, "mutant": tb, "tag": "wide-char-vs-mojibake"})
+    # hashing must not leave state behind on the nodes: hash, then derive other structures from the same node objects
+    import copy as _copy
+
+    for text in ["Select(MetaData(EventDataset(), {}), lambda e: e.x + 1)", "Where(Select(EventDataset(), lambda e: (e.a, e.b)), lambda t: t[0] > 1)"]:
+        a = astx.parse_expr(text)
+        h0 = table.see(a, "before-derivation")
+        # (1) shallow copy of the top node (what QMetaData / the metadata cleaner do) with one child replaced
+        c = _copy.copy(a)
+        c.args = [a.args[0], astx.parse_expr("lambda z: z.other")]
+        ctx.case("stale:" + text + ":shallow-copy", True)
+        ctx.count("mutant:shallow-copy-with-new-child")
+        hc = table.see(c, "shallow-copy-with-new-child")
+        if hc == h0:
+            ctx.violation("insensitive-to:edit-on-a-shallow-copy-of-a-hashed-node", f"{text}: a shallow copy with another lambda hashes like the original", {"text": text})
+        # (2) the node itself edited in place after it was hashed
+        a.args[1].body = astx.parse_expr("e.y - 2")
+        ctx.case("stale:" + text + ":in-place", True)
+        ctx.count("mutant:in-place-edit-after-hash")
+        if table.see(a, "edited-in-place") == h0:
+            ctx.violation("insensitive-to:in-place-edit-after-hashing", f"{text}: edited after hashing, hash unchanged", {"text": text})
+    # (3) through the real API: hash the stream, execute it (empty MetaData cleaned away), hash what the executor got
+    from func_adl import EventDataset as _EDS
+
+    class _DS(_EDS):
+        async def execute_result_async(self, aa, title=None):
+            return aa
+
+    d1 = _DS()
+    s_md = d1.MetaData({}).Select("lambda e: e.pt").Where("lambda p: p > 1")
+    s_plain = d1.Select("lambda e: e.pt").Where("lambda p: p > 1")
+    table.see(s_md.query_ast, "stream-with-empty-metadata")
+    got = s_md.value()
+    ctx.case("stale:api", True)
+    ctx.count("api-clean-then-hash")
+    if astx.dump_fields(got, ctx=True) == astx.dump_fields(s_plain.query_ast, ctx=True) and table.see(got, "executor-ast") != table.see(s_plain.query_ast, "same-query-without-metadata"):
+        ctx.violation("same-structure-different-hash:after-cleaning", "the AST handed to the executor (empty MetaData removed) hashes differently from the same query built without MetaData", {"text": "api"})
     # Constant(-1) vs UnaryOp(USub, 1): print alike, differ structurally
     a1 = astx.parse_expr("f(x)[0]")
     a1.slice = astx.C(-1)
